@@ -27,7 +27,7 @@ vars == <<l, snap>>
 
 GC(r) == INSTANCE GriddleCount WITH
             R <- RR, GW <- GWW, MaxUsize <- MU, ElemSize <- 8,
-            FixD1 <- TRUE, FixD4 <- TRUE, Debug <- (Hdr.profile = "debug"),
+            FixD1 <- TRUE, FixD4 <- TRUE, FixD6 <- TRUE, Debug <- (Hdr.profile = "debug"),
             mB <- r.mB, mI <- r.mI, mG <- r.mG, oP <- r.oP, oB <- r.oB, oI <- r.oI, cI <- r.cI, err <- r.err
 HB == INSTANCE Hashbrown WITH GW <- GWW, MaxUsize <- MU, ElemSize <- 8
 
@@ -190,8 +190,8 @@ SOp(e) ==
       [] e.op = "CloneFrom" ->
              LET S == Pre(s)
                  D == Pre(e.d)
-                 T0 == HB!CloneFromWithHasher(HB!Tbl(D.mB, D.mI, D.mG), HB!Tbl(S.mB, S.mI, S.mG))
-                 cands == {LET T == HB!InsGrowNR(T0, IF S.oP THEN S.cI ELSE 0, ru) IN
+                 Dt == HB!Tbl(D.mB, D.mI, D.mG)
+                 cands == {LET T == GC(S)!CloneFromMain(Dt, ru) IN
                            [mB |-> T.b, mI |-> T.i, mG |-> T.g, oP |-> FALSE, oB |-> 0, oI |-> 0, cI |-> 0, err |-> "none"]
                            : ru \in 0..(IF S.oP THEN S.cI ELSE 0)}
              IN Strict("clone_from", e, Post(e, e.d) \in cands /\ Post(e, s) = S, <<S, D, Post(e, e.d), cands>>)
